@@ -15,6 +15,9 @@
 #include <Eigen/SparseCholesky>
 
 #include "../SymGEigsSolver.h"
+#ifdef YIXUAN_SPECTRA_VERIF
+#include "../Util/VerifHooks.h"
+#endif
 
 namespace Spectra {
 
@@ -82,6 +85,9 @@ namespace Spectra {
 template <typename Scalar = long double>
 class LOBPCGSolver
 {
+#ifdef YIXUAN_SPECTRA_VERIF
+    friend struct ::Spectra::verif::Access;
+#endif
 private:
     typedef Eigen::Matrix<Scalar, Eigen::Dynamic, Eigen::Dynamic> Matrix;
     typedef Eigen::Matrix<Scalar, Eigen::Dynamic, 1> Vector;
